@@ -116,6 +116,11 @@ F5_Leafs(t) ==
     SelA("g", "f", <<[n |-> "z", v |-> ListV(<<IntV("3"), VarRef("i1")>>)]>>),
     SelA("h", "f", <<[n |-> "in", v |-> ObjV(<<[n |-> "r", v |-> IntV("1")]>>)]>>),
     SelA("h", "f", <<[n |-> "in", v |-> ObjV(<<[n |-> "r", v |-> VarRef("i3")], [n |-> "k", v |-> IntV("2")]>>)]>>),
+    \* a literal field first, the variable in a LATER field / element
+    SelA("h", "f", <<[n |-> "in", v |-> ObjV(<<[n |-> "k", v |-> IntV("2")], [n |-> "r", v |-> VarRef("i3")]>>)]>>),
+    SelA("g", "f", <<[n |-> "z", v |-> ListV(<<VarRef("i1"), IntV("3")>>)]>>),
+    SelA("m", "g", <<[n |-> "in2", v |-> ObjV(<<[n |-> "l", v |-> ListV(<<IntV("1")>>)],
+                                               [n |-> "n", v |-> ObjV(<<[n |-> "m", v |-> StrV("s")], [n |-> "r", v |-> VarRef("i3")]>>)]>>)]>>),
     SelA("j", "f", <<[n |-> "en", v |-> EnumV("GREEN")]>>),
     SelA("j", "f", <<[n |-> "en", v |-> VarRef("e1")]>>) }
 
